@@ -275,6 +275,7 @@ def _discover_ep(r):
         p.call("c18_ep_consts")
         p.call("c18_fp_consts")
         p.call("c18_fpx_consts")
+        p.call("c18_ep_accessors")
         try:
             res = r.run(p)
         except RunnerCrash as rc:
@@ -283,13 +284,14 @@ def _discover_ep(r):
             notes.append("ep_param_set(%s) crashes the runner: %s" % (_nm(EP_NAMES, cid, "EP#"), kind or rc.why))
             rejected.append(cid)
             continue
-        c0, c1, c2, c3 = res.calls
+        c0, c1, c2, c3, c4 = res.calls
         if c0.unsupported or c1.unsupported:
             raise Unsupported()
         if c0.errored:
             rejected.append(cid)
             continue
         E = _parse_ep(c1)
+        E.acc = None if (c4.unsupported or c4.errored) else [dec_bn(b) for b in c4.blobs[:2]]
         E.id = cid
         E.name = _nm(EP_NAMES, cid, "EP#")
         E.fp = _parse_fp(c2, c3)
@@ -301,7 +303,34 @@ def _discover_ep(r):
         b = E.blobs
         E.p = F.p
         E.raw = dict(a=int.from_bytes(b[0], "little"), b=int.from_bytes(b[1], "little"))
+        E.desc = [si(v) for v in c1.rets[:13]]
         out.append(E)
+    # what a parameter set ADVERTISES (identifier, option tags, endomorphism / supersingular / pairing-family flags,
+    # embedding degree, Frobenius dimension, security level, order, cofactor) right after a set of ANOTHER kind was
+    # active: the identifiers above are walked in ascending order, which hides a flag that is only written for some
+    # kinds of curves (seed C18-5: the pairing-family flag kept from a pairing curve selected before a plain one)
+    kinds = {}
+    for E in out:
+        kinds.setdefault("pairf" if E.is_pairf else ("endom" if E.is_endom else "plain"), E)
+    for E in out:
+        E.after = {}
+        for kind, P in sorted(kinds.items()):
+            if P.id == E.id:
+                continue
+            p = Prog()
+            p.call("ep_param_set", P.id)
+            p.call("ep_param_set", E.id)
+            p.call("c18_ep_consts")
+            p.call("c18_ep_accessors")
+            try:
+                res = r.run(p)
+            except RunnerCrash as rc:
+                notes.append("ep_param_set(%s) after %s crashes the runner: %s" % (E.name, P.name, rc.why))
+                continue
+            if any(cl.errored or cl.unsupported for cl in res.calls):
+                E.after[P.name] = None
+                continue
+            E.after[P.name] = ([si(v) for v in res.calls[2].rets[:13]], [dec_bn(b) for b in res.calls[3].blobs[:2]])
     return out, rejected, notes
 
 
@@ -334,12 +363,13 @@ def _discover_pc(r, eps, ops):
             p.call("ep2_curve_set_twist", ttype)
             p.call("c18_ep2_consts")
             p.call("c18_fpx_consts")
+            p.call("c18_ep2_accessors")
             try:
                 res = r.run(p)
             except RunnerCrash as rc:
                 notes.append("%s twist type %d: runner %s" % (E.name, ttype, rc.why))
                 continue
-            c0, c1, c2, c3 = res.calls
+            c0, c1, c2, c3, c4 = res.calls
             if c1.errored:
                 notes.append("%s twist type %d: not selectable (error %d)" % (E.name, ttype, c1.e))
                 break                       # no ep2 table for this curve: the other type fails the same way
@@ -354,6 +384,7 @@ def _discover_pc(r, eps, ops):
             T.has_ctmap = bool(rets[7])
             T.iso_deg = [si(v) for v in rets[8:12]]
             T.blobs = c2.blobs
+            T.acc = None if (c4.unsupported or c4.errored) else [dec_bn(b) for b in c4.blobs[:2]]
             T.fp = _parse_fp_min(E, c3)
             T.k_pc = k_pc
             T.declared = declared
@@ -1153,6 +1184,35 @@ def ep_order(ctx, E, case):
     return True, ["ep:r-bits=%d" % v.r.bit_length()]
 
 
+def ep_accessors(ctx, E, case):
+    """the context fields are what the relations above decide; the PUBLIC accessors must advertise exactly those"""
+    v = ep_view(E)
+    if getattr(E, "acc", None) is None:
+        raise Unsupported()
+    if E.acc != [v.r, v.h]:
+        raise V("ep: ep_curve_get_ord / ep_curve_get_cof of %s do not return the stored order / cofactor" % E.name,
+                accessors=E.acc, stored=[v.r, v.h])
+    return True, []
+
+
+def ep_advertised_after(ctx, E, case):
+    """the advertised descriptors do not depend on which kind of parameter set was active before"""
+    v = ep_view(E)
+    if not getattr(E, "after", None):
+        raise Unsupported()
+    names = ["ep_id", "opt_a", "opt_b", "is_endom", "is_super", "is_pairf", "is_ctmap", "embedding degree",
+             "Frobenius dimension", "security level", "generator coord", "BASIC", "field id"]
+    for prev, got in sorted(E.after.items()):
+        if got is None:
+            raise V("ep: selecting %s right after %s reports an error" % (E.name, prev))
+        desc, acc = got
+        diff = [names[i] for i in range(len(names)) if desc[i] != E.desc[i]]
+        if diff or (E.acc is not None and acc != E.acc):
+            raise V("ep: %s advertises other parameters when it is selected right after %s: %s differ" %
+                    (E.name, prev, ", ".join(diff) or "order / cofactor"), after=desc, alone=E.desc)
+    return True, ["ep:advertised-after=%d" % len(E.after)]
+
+
 def isqrt(n):
     import math
     return math.isqrt(n)
@@ -1728,7 +1788,8 @@ EP_RELS = [
     ("order-prime-kills-G", ep_order, None, None), ("hasse-cm", ep_hasse, None, None),
     ("family-polynomials", ep_family, None, None), ("embedding-degree", ep_embed, None, None),
     ("security-level", ep_level, None, None), ("beta-lambda", ep_endo, None, None), ("glv-lattice", ep_glv, None, None),
-    ("h2c-constants", ep_h2c, None, None),
+    ("h2c-constants", ep_h2c, None, None), ("accessors", ep_accessors, None, None),
+    ("advertised-after-other-kind", ep_advertised_after, None, None),
     ("curve-order", ep_cofactor, mat_point, None), ("cofactor-map", ep_mul_cof, mat_point_alias, None),
     ("psi-eigenvalue", ep_psi, mat_scalar, _endo_only), ("glv-split", ep_glv_split, mat_scalar, _endo_only),
     ("generator-table", ep_gen_table, mat_scalar, None),
@@ -1882,6 +1943,18 @@ def pc_twist_order(ctx, T, case):
                     r=v.r, candidates=c)
         return True, ["pc:twist-order=cm"]
     return True, ["pc:twist-order=hasse-only"]
+
+
+def pc_accessors(ctx, T, case):
+    """ep2_curve_get_ord / ep2_curve_get_cof must advertise the order and cofactor the twist relations were decided for
+    (seed C18-6: the accessor returned the base curve's cofactor for twists while the stored value stayed right)"""
+    v = pc_view(T)
+    if getattr(T, "acc", None) is None:
+        raise Unsupported()
+    if T.acc != [v.r, v.h2]:
+        raise V("pc: ep2_curve_get_ord / ep2_curve_get_cof of %s do not return the stored order / cofactor of the twist"
+                % T.name, accessors=T.acc, stored=[v.r, v.h2])
+    return True, []
 
 
 def pc_frb_consts(ctx, T, case):
@@ -2077,6 +2150,7 @@ def mat_two_twist_points(src, T):
 PC_RELS = [
     ("tower-field", pc_tower, None, None), ("twist-coefficients", pc_twist_b, None, None),
     ("G2-on-twist-order-r", pc_g2, None, None), ("twist-order-cm", pc_twist_order, None, None),
+    ("accessors", pc_accessors, None, None),
     ("frobenius-constants", pc_frb_consts, None, None), ("gt-generator", pc_gt, None, lambda T: T.k_pc == 12 and T.base.embed == 12 and pc_consistent(T)),
     ("h2c-constants", pc_h2c, None, pc_consistent),
     ("twist-order-point", pc_twist_point, mat_twist_point, None),
